@@ -8,16 +8,18 @@ import numpy as np
 from .. import lib, pfile
 
 ID = 'C04'
-LEAN_MODULE = 'PncProofs.C04Files'     # imports PncProofs.C04 through PncProofs.C01Files
+LEAN_MODULE = 'PncProofs.C04Split'     # imports PncProofs.C04Files (and PncProofs.C04 through PncProofs.C01Files) and PncProofs.C01Seq
 LEAN_FILE = 'PncProofs/C04.lean'
-MORE_LEAN_FILES = ['PncProofs/C04Files.lean']
+MORE_LEAN_FILES = ['PncProofs/C04Files.lean', 'PncProofs/C04Split.lean']
 NAMESPACE = 'Props.C04'
 LEAN_CONE = ['PncModel.Arr', 'PncModel.NsStep', 'PncModel.Generated.NamespaceOrder', 'PncModel.File', 'PncProofs.ArrLemmas', 'PncProofs.C04',
              'PncProofs.FiberLemmas', 'PncProofs.C03', 'PncProofs.C02', 'PncProofs.ZipLemmas', 'PncProofs.C01', 'PncProofs.StackLemmas',
-             'PncProofs.SliceLemmas', 'PncProofs.C01Files', 'PncProofs.C04Files']
+             'PncProofs.SliceLemmas', 'PncProofs.C01Files', 'PncProofs.C04Files', 'PncProofs.NamesLemmas', 'PncProofs.C06', 'PncProofs.C01Seq',
+             'PncProofs.C04Split']
 LEMMA_FILES = ['PncProofs/StackLemmas.lean']
 REQUIRED_THEOREMS = ['concat_take_drop', 'concat_split_all', 'take_concat', 'drop_concat', 'concat_shape',
-                     'concatAll_eq', 'stackVar_data', 'orth_window', 'concat_atAxis', 'concat_windows']
+                     'concatAll_eq', 'stackVar_data', 'orth_window', 'concat_atAxis', 'concat_windows', 'sliceFile_cut', 'stackVar_pieces',
+                     'pieces_vars', 'stack_split', 'stack_of_slices', 'stack_pieces_ok', 'split_then_stack']
 RULE = ('kind split: a random file is cut along a random dimension into 1..4 consecutive pieces (cut points '
         'anywhere incl. empty-free partitions), pieces are built independently and stacked; kind indep: 2..4 '
         'files sharing all other dimensions, with their own data and stack-dimension lengths, variables '
